@@ -57,7 +57,7 @@ func c03(c *eng.Ctx) {
 	c.Rule("R2", "endpointStatus.IsReady is false whenever Disabled is true or Healthy is false (forcing), true when enabled and healthy, and reads both under the status mutex; EndpointInfo.IsReady delegates to it", 5)
 	c.Rule("R3", "MatchAttributes gives the picker policy.UpstreamSubset when non-empty and all endpoints of the cluster otherwise; the policy is the result of MatchPolicies", 3)
 	c.Rule("R4", "the dispatcher contacts the endpoint it picked: URL scheme/host, both transports, the cancel-watch context and the forwarded mark derive from the single Pop result; a Pop error answers 503 before anything else", 7)
-	c.Rule("R5", "a disabled endpoint is not probed: SetDisabled is always followed by EnsureGatewayHealthCheck, probes start only when not disabled and are cancelled when disabled, a new endpoint starts unhealthy, the probe function is invoked only by the health-check loop", 5)
+	c.Rule("R5", "a disabled endpoint is not probed: SetDisabled is always followed by EnsureGatewayHealthCheck, probes start only when not disabled and are cancelled when disabled, a new endpoint starts unhealthy, the probe function is invoked only by the health-check loop, probes run under the endpoint's own context", 7)
 
 	sl := c.Slicer()
 	// ---- R1
@@ -375,6 +375,20 @@ func c03(c *eng.Ctx) {
 		}
 		if n == 0 {
 			c.Fail("R5", au, "SetDisabled ⇒ EnsureGatewayHealthCheck", au.Pos(), "the disabled flag of an existing endpoint is never updated")
+		}
+		// probes die with their endpoint: every EnsureGatewayHealthCheck here is given the endpoint's own context
+		for _, ci := range eng.CallsTo(au, pkgClusters+".EnsureGatewayHealthCheck") {
+			a := eng.Args(ci)
+			own := len(a) == 3 && eng.FieldLoadOf(a[2], tEndpointInfo, "ctx")
+			if own {
+				if u, isU := a[2].(*ssa.UnOp); isU {
+					if fa, isFA := u.X.(*ssa.FieldAddr); isFA {
+						own = fa.X == a[0]
+					}
+				}
+			}
+			c.Check("R5", au, "probes run under the endpoint's own context", ci.Pos(), own,
+				"the health check of an endpoint must stop when the endpoint is removed: started under the cluster's context an orphan prober survives removal, and a later re-added, disabled endpoint of the same address keeps being probed")
 		}
 		// initial status: Healthy false
 		for _, st := range eng.StoresToField([]*ssa.Function{au}, tEndpointStatus, "Healthy") {
